@@ -21,15 +21,16 @@ func runInd(c *Case, o PipeOpts) (*PipeResult[F], *IndInstance) {
 	}
 	ii := c.ind()
 	inputs := floatInputs(e.Sig, c.Lens, c.Shape, c.DataSeed)
-	return runPipe(o, inputs, ii.Build()), ii
+	// the instance that computes is made inside the simulation (anything a constructor creates -
+	// a channel, a timer - then belongs to the bubble); ii only tells the declared warm-up
+	return runPipe(o, inputs, func(in []<-chan F) []<-chan F { return c.ind().Build()(in) }), ii
 }
 
 // runStrat executes a strategy case (one snapshot input, one action output).
 func runStrat(c *Case, o PipeOpts) *PipeResult[strategy.Action] {
-	s := c.strat()
 	snaps := genSnapshots(c.Lens[0], c.Shape, c.DataSeed, epoch)
 	return runPipe(o, [][]*asset.Snapshot{snaps}, func(in []<-chan *asset.Snapshot) []<-chan strategy.Action {
-		return []<-chan strategy.Action{s.Compute(in[0])}
+		return []<-chan strategy.Action{c.strat().Compute(in[0])}
 	})
 }
 
